@@ -174,7 +174,7 @@ fn run_case(seed: u64, lean: &mut Lean, hist: &mut BTreeMap<String, u64>, sample
                     return (fails, false, 0);
                 }
                 if got == filt && filt != s.orig { s.filtered_seen = true; saw_filtered = true; }
-                if !diverged[nn] {
+                if !diverged[nn] && !no_model() {
                     let m = lean.ask(&format!("kv.op get {} {}", ids[nn], hex(k)));
                     let real = match &got { None => "val:none".to_string(), Some(v) => format!("val:{}", hex(v)) };
                     if m != real {
